@@ -51,6 +51,10 @@ class Check:
         Returns the list of verdict tuples ["VERDICT", row id, element index, property, clause]."""
         if not rows:
             return []
+        sysrows = [r for r in rows if r.get('k') == 'sys']
+        if sysrows:
+            rest = [r for r in rows if r.get('k') != 'sys']
+            return self.judge_sys(sysrows, nproc=nproc, timeout=timeout) + (self.judge(rest, label, nproc, timeout) if rest else [])
         small = [r for r in rows if _is_small(r)]
         big = [r for r in rows if not _is_small(r)]
         verdicts = []
@@ -108,6 +112,55 @@ class Check:
         finally:
             if os.environ.get('VERIF_KEEP'):
                 sys.stderr.write('kept judge batches in %s\n' % tmp)
+            else:
+                shutil.rmtree(tmp, ignore_errors=True)
+
+    def judge_sys(self, rows, nproc=None, timeout=3600):
+        """rows of kind "sys" (one per call, grouped in behaviours by row['b']): validated by FxpTrace.tla, which replays
+        every behaviour through FxpSystem's Step and compares the projection of every object after every call."""
+        nproc = nproc or NPROC
+        groups = {}
+        for r in rows:
+            groups.setdefault(r['b'], []).append(r)
+        keys = list(groups)
+        nfiles = max(1, min(nproc, len(keys)))
+        os.makedirs(tlc.WORK, exist_ok=True)
+        tmp = tempfile.mkdtemp(prefix='trace-', dir=tlc.WORK)
+        try:
+            files = []
+            for b in range(nfiles):
+                part = [r for k in keys[b::nfiles] for r in groups[k]]
+                if not part:
+                    continue
+                fn = os.path.join(tmp, 't%d.ndjson' % b)
+                with open(fn, 'w') as fh:
+                    for r in part:
+                        fh.write(common.jdump(r) + '\n')
+                files.append((fn, len(part)))
+            verdicts, skipped = [], 0
+            with cf.ThreadPoolExecutor(max_workers=len(files)) as ex:
+                futs = [ex.submit(tlc.run, '../FxpTrace.tla', 'FxpTrace.cfg', workers=1, env={'TRACE_FILE': fn}, heap='3g', timeout=timeout)
+                        for fn, _ in files]
+                for (fn, n), fu in zip(files, futs):
+                    r = fu.result()
+                    consumed = [p for p in r.printed if isinstance(p, list) and p and p[0] == 'CONSUMED']
+                    if r.error or not r.ok or not consumed or consumed[0][1] != n:
+                        sys.stderr.write(tlc.error_context(r) + '\n')
+                        keep = os.path.join(common.REPLAYS, 'machinery-failed-trace.ndjson')
+                        os.makedirs(common.REPLAYS, exist_ok=True)
+                        shutil.copy(fn, keep)
+                        raise Machinery('trace validation failed or did not consume all events (%s); trace kept at %s' % (r.error, keep))
+                    self.states += r.distinct
+                    self.transitions += r.generated
+                    verdicts += [p for p in r.printed if isinstance(p, list) and p and p[0] == 'VERDICT']
+                    skipped += len([p for p in r.printed if isinstance(p, list) and p and p[0] == 'SKIPPED'])
+            self.subruns.append({'label': 'FxpTrace', 'kind': 'trace-validation', 'events': len(rows), 'behaviours': len(keys),
+                                 'files': len(files), 'verdicts': len(verdicts), 'events_skipped_after_a_mismatch': skipped})
+            self.traces += len(keys)
+            return verdicts
+        finally:
+            if os.environ.get('VERIF_KEEP'):
+                sys.stderr.write('kept traces in %s\n' % tmp)
             else:
                 shutil.rmtree(tmp, ignore_errors=True)
 
